@@ -44,6 +44,9 @@ pub fn alphabet(w: i32, h: i32) -> Vec<Op> {
         // path without a leading MoveTo, path ending without Close
         fill(vec![POp::L(0.25, 0.5), POp::L(wf - 0.5, 1.25), POp::L(1.0, hf - 0.5)], GRN),
         fill(vec![POp::M(0.5, 0.5), POp::L(wf - 1.0, 0.75), POp::L(wf - 0.5, hf - 0.25)], HALF),
+        // paths that begin with Close (then continue without MoveTo)
+        fill(vec![POp::Z, POp::L(0.75, 0.25), POp::L(wf - 0.25, 1.5), POp::L(1.5, hf - 0.25)], RED),
+        fill(vec![POp::Z, POp::Q(wf, 0.5, wf - 1.0, hf - 0.5), POp::L(0.25, hf - 0.75)], HALF),
         // curves, one starting without MoveTo
         fill(vec![POp::M(0.25, 0.25), POp::Q(wf + 1.0, 0.5, wf * 0.5, hf - 0.25), POp::Z], RED),
         fill(vec![POp::Q(wf, 0.0, wf - 0.5, hf - 0.5), POp::L(0.5, hf - 1.0)], GRN),
@@ -51,6 +54,7 @@ pub fn alphabet(w: i32, h: i32) -> Vec<Op> {
         Op::PushClip(PathSpec::new(tri(0.25, hf - 0.5))),
         Op::PushClip(PathSpec::new(tri(-6.0, -3.0))),
         Op::PushClip(PathSpec::new(vec![POp::L(1.0, 0.0), POp::L(wf, 1.0), POp::L(1.0, hf)])),
+        Op::PushClip(PathSpec::new(vec![POp::Z, POp::L(0.5, 0.5), POp::L(wf, 1.5), POp::L(0.5, hf)])),
         Op::PushClipRect(1, 1, w, h - 1),
         Op::PopClip,
         // strokes
